@@ -38,6 +38,7 @@ class Op:
         self.program = OperatorProgram(sim, name, spec)
         self.settings = make_settings(spec)
         self.stop_flag = None
+        self.stop_pending = False     # a stop requested before the process got to run at all
         self.ready_flag = None
         self.started_at = sim.world.now
         self.exited_at = None
@@ -51,6 +52,8 @@ class Op:
         async def main():
             self.stop_flag = asyncio.Event()
             self.ready_flag = asyncio.Event()
+            if self.stop_pending:
+                self.stop_flag.set()
 
             async def ready_watch():
                 await self.ready_flag.wait()
@@ -111,6 +114,9 @@ class Sim:
         op = self.ops[name]
         if op.alive and op.stop_flag is not None:
             op.loop.call_soon(op.stop_flag.set)
+            self.note('stop', name)
+        elif op.alive:
+            op.stop_pending = True
             self.note('stop', name)
 
     def cancel(self, name):
